@@ -10,12 +10,36 @@ sys.path.insert(0, os.path.dirname(os.path.dirname(os.path.abspath(__file__))))
 import asm2coq
 
 ID = "C02"
+MANIFEST_A = {
+    "text": "(a) machine context, translator based: tools/asm2coq.py turns the preprocessed x86-64 fcontext assembly of /repo's "
+            "current tree into Coq instruction lists (coq/Asm/FctxGen.v, regenerated on every run; unknown syntax = failure) and "
+            "the theorems are re-checked against them under the executable ISA semantics coq/Asm/X86.v: for all 4 save x 4 restore "
+            "primitives and ALL register/memory states (stated side conditions: 64-bit values, 56 bytes of stack, parties' frames and "
+            "fcontext_t cells disjoint) a ULT's rbx, rbp, r12-r15, MXCSR, x87 CW, RSP and return address are exactly restored after "
+            "save -> any frame-preserving execution -> restore (C02_roundtrip_*, 16 theorems), with every called C callback replaced "
+            "by an arbitrary SysV-ABI-conforming callee; the _with_call savers have the complete context behind *p_old_ctx at the "
+            "instant the callback is entered and can leave no other way (C02_save_before_callback, _order); a fresh ULT / callback "
+            "is entered with RSP = 8 mod 16 inside (top-24, top-8] for every p_stacktop, with the right function and argument "
+            "(C02_entry_alignment*); peek_fcontext returns transparently; no execution gets stuck under 8-byte alignment "
+            "(C02_progress).  Tie/search: harness/h_c02_ctx.c runs canaries in all those registers, MXCSR rounding/FTZ/DAZ bits, "
+            "x87 precision/rounding bits and stack words through every primitive pair (white box, directly on the primitives) and "
+            "through every public switch API (yield, yield_to, create_to, revive_to, suspend/resume, resume_yield_to, suspend_to, "
+            "resume_suspend_to, exit_to, resume_exit_to, join hand-off, eventual wait, ABT_self_schedule, set_main_sched) on default, "
+            "malloc'ed, user-supplied (every 8-byte offset mod 64, sizes not multiple of 16) and primary-ULT stacks.",
+    "note": "Trusted: Coq kernel; the translator (one-to-one mnemonic mapping, ~250 lines, hard error on anything unknown); the "
+            "hand-written semantics X86.v (16 instruction forms from the SDM; memory = 4-byte cells, executions with an access that "
+            "is not 4-aligned are outside the model: theorems are partial correctness + separate progress theorem under 8-byte "
+            "alignment); the ABI oracle abi_ret (a relation, not an axiom; deliberately weaker than the ABI on MXCSR/CW); both are "
+            "validated against the hardware by the canary harness.  Not modelled: flags, encodings, red zone, signals, #GP on reserved "
+            "MXCSR bits, other architectures.  'any frame-preserving execution' is a hypothesis of (a); that the runtime keeps a "
+            "suspended ULT's frame and cell intact (no second stream runs it, stacks disjoint) is half (b) and C15.",
+}
 
 # ====================================================================== (a) machine context
 FCTXGEN = os.path.join(vlib.COQ, "Asm", "FctxGen.v")
 PROP_FILE = "Properties_C02.v"
-TARGETS_A = ["Asm/X86.vo", "Asm/FctxSpec.vo", "Asm/FctxGen.vo", "Asm/FctxProofs.vo", "Asm/FctxExamples.vo",
-             "Asm/FctxProgress.vo", "Properties_C02.vo"]
+TARGETS_A = ["Asm/X86.vo", "Asm/FctxSpec.vo", "Asm/FctxGen.vo", "Asm/FctxBase.vo", "Asm/FctxSave.vo", "Asm/FctxRestore.vo",
+             "Asm/FctxEntry.vo", "Asm/FctxProofs.vo", "Asm/FctxExamples.vo", "Asm/FctxProgress.vo", "Properties_C02.vo"]
 HARNESS_A = "h_c02_ctx.c"
 
 # which Properties theorems rest on which lemma of Asm/FctxProofs.v (to name what broke)
@@ -56,23 +80,24 @@ def theorems_resting_on(lemma):
     return ["every C02 (a) theorem (shared lemma %s)" % lemma]
 
 
-def broken_lemma(make_log):
-    """first 'File "./Asm/X.v", line N' of the make log -> (file, line, enclosing lemma name)"""
-    m = re.search(r'File "\./(Asm/\w+\.v|Properties_C02\.v)", line (\d+)', make_log)
-    if not m:
-        return None
-    f, ln = m.group(1), int(m.group(2))
-    name = "?"
-    try:
-        lines = open(os.path.join(vlib.COQ, f)).read().split("\n")
-        for l in lines[:ln][::-1]:
-            mm = re.match(r"\s*(?:Theorem|Lemma|Example|Corollary)\s+(\w+)", l)
-            if mm:
-                name = mm.group(1)
-                break
-    except OSError:
-        pass
-    return f, ln, name
+def broken_lemmas(make_log):
+    """every 'File "./Asm/X.v", line N' of the (make -k) log -> [(file, line, enclosing lemma name)]"""
+    out = []
+    for m in re.finditer(r'File "\./(Asm/\w+\.v|Properties_C02\.v)", line (\d+)', make_log):
+        f, ln = m.group(1), int(m.group(2))
+        name = "?"
+        try:
+            lines = open(os.path.join(vlib.COQ, f)).read().split("\n")
+            for l in lines[:ln][::-1]:
+                mm = re.match(r"\s*(?:Theorem|Lemma|Example|Corollary)\s+(\w+)", l)
+                if mm:
+                    name = mm.group(1)
+                    break
+        except OSError:
+            pass
+        if (f, ln, name) not in out:
+            out.append((f, ln, name))
+    return out
 
 
 @contextlib.contextmanager
@@ -82,6 +107,13 @@ def fctx_lock():
     with open(os.path.join(vlib.BUILD, "c02gen.lock"), "w") as lk:
         fcntl.flock(lk, fcntl.LOCK_EX)
         yield
+
+
+def setup_regenerate():
+    """for tools/setup.py: refresh the committed coq/Asm/FctxGen.v from /repo's tree before `make all`"""
+    with fctx_lock():
+        ok, info, changed = regenerate(vlib.REPO)
+    return ok, info
 
 
 def regenerate(root):
@@ -142,6 +174,10 @@ def scenarios(tier, seed):
         for r in _ALL_R:
             for o in offs:
                 sc.append("W %s %s %d" % (s, r, o))
+    for v in ("init_and_jump", "init_and_jump_with_call"):
+        for r in _ALL_R:
+            for o in offs:
+                sc.append("J %s %s %d" % (v, r, o))
     for o in offs:
         sc.append("K %d" % o)
     allp = [(op, res) for op, rs in OPS for res in rs]
@@ -163,6 +199,9 @@ def scenarios(tier, seed):
     for op, rs in OPS_PRIMARY:
         for res in rs:
             sc.append("P Y 0 0 %s %s" % (op, res))
+    kinds = os.environ.get("VERIF_C02_KINDS")      # self-test aid: e.g. "P" = public-API scenarios only
+    if kinds:
+        sc = [l for l in sc if l[0] in kinds]
     return sc
 
 
@@ -213,8 +252,18 @@ def stage_a(rep, sc, tier, seed, replay=None, extra_targets=()):
         proof = vlib.proof_stage(PROP_FILE, TARGETS_A + list(extra_targets))
         cov["translator"] = tinfo if tok else {"error": tinfo}
         cov["fctxgen_changed"] = changed
+        chk_err = None
+        if tier == "thorough" and tok and proof["ok"]:
+            # independent re-check of the compiled development by the kernel-only checker
+            rc, out, err = vlib.run(["coqchk", "-silent", "-o", "-Q", ".", "ABT", "ABT.Properties_C02"], cwd=vlib.COQ, timeout=1800)
+            cov["coqchk"] = "ok, Axioms: <none>" if (rc == 0 and "Axioms: <none>" in (out + err)) else "FAILED"
+            if cov["coqchk"] == "FAILED":
+                chk_err = (out + err)[-2000:]
         cov["proof_wall_s"] = round(time.time() - t0, 1)
     broken = None
+    if chk_err:
+        proof["ok"] = False
+        proof["log"] = "coqchk rejected the compiled development or found axioms:\n" + chk_err
     if not tok:
         broken = {"what": "translation of fcontext_x86_64_sysv_elf_gas.S failed (instruction/operand outside the modelled "
                           "subset, or structure changed): " + tinfo,
@@ -222,10 +271,16 @@ def stage_a(rep, sc, tier, seed, replay=None, extra_targets=()):
         proof["ok"] = False
         proof["discharged"] = 0
     elif not proof["ok"]:
-        bl = broken_lemma(proof["log"])
-        if bl:
-            broken = {"what": "%s line %d: proof of %s no longer checks against the regenerated FctxGen.v" % bl,
-                      "lemma": bl[2], "theorems": theorems_resting_on(bl[2]), "log": proof["log"][-2500:]}
+        bls = broken_lemmas(proof["log"])
+        if bls:
+            thms = []
+            for _, _, nm in bls:
+                for t in theorems_resting_on(nm):
+                    if t not in thms:
+                        thms.append(t)
+            broken = {"what": "; ".join("%s line %d: proof of %s no longer checks against the regenerated FctxGen.v" % b
+                                        for b in bls),
+                      "lemmas": [b[2] for b in bls], "theorems": thms, "log": proof["log"][-2500:]}
         else:
             broken = {"what": "Coq build of the C02 development failed", "theorems": ["?"], "log": proof["log"][-2500:]}
     # 2. canary harness on the scratch build: oracle validation, and the failing-input search
@@ -251,6 +306,8 @@ def stage_a(rep, sc, tier, seed, replay=None, extra_targets=()):
         p = l.split()
         if p[0] == "W":
             key = "W %s/%s" % (p[1], p[2])
+        elif p[0] == "J":
+            key = "W switch+%s/%s" % (p[1], p[2])
         elif p[0] == "K":
             key = "W peek"
         else:
